@@ -336,6 +336,22 @@ PRED_REF = {
 CLASSES = {"P": P, "Q": Q, "E": PE}
 
 
+class FlakyCollection:
+    """A re-iterable user collection whose walk ticks the fault counter once per element: when armed, the WALK OF THE DOMAIN
+    (not a predicate or a property) raises Boom in the middle of an evaluation; the next walk starts from the beginning."""
+
+    def __init__(self, items):
+        self.items = list(items)
+
+    def __iter__(self):
+        for it in self.items:
+            _fault_tick()
+            yield it
+
+    def __len__(self):
+        return len(self.items)
+
+
 def arm_fault(at):
     FAULT["calls"] = 0
     FAULT["raise_at"] = at
